@@ -454,7 +454,139 @@ class _DropAnn(ast.NodeTransformer):
         return node
 
 
-def canonicalise(tree: ast.Module) -> ast.Module:
+def _static_elem(e: ast.AST) -> bool:
+    if isinstance(e, (ast.Constant, ast.Name)):
+        return True
+    if isinstance(e, ast.Attribute):
+        return _static_elem(e.value)
+    if isinstance(e, (ast.Tuple, ast.List)):
+        return all(_static_elem(x) for x in e.elts)
+    return False
+
+
+def _unroll_table_loops(tree: ast.Module, known: set) -> None:
+    """C15: `for a, b in TABLE: body`, TABLE a module-level tuple / list display that is new to the rule catalogue, of at most 8 static elements that is bound once and never
+    mutated, body without break / continue / else, loop variables not used after the loop  ->  the bodies in sequence with the elements substituted.
+    (An if / elif chain over classes or names written as a table-driven loop is the chain again.)"""
+    import copy
+    tables = {}
+    stores = {}
+    for x in ast.walk(tree):
+        if isinstance(x, ast.Name) and isinstance(x.ctx, (ast.Store, ast.Del)):
+            stores[x.id] = stores.get(x.id, 0) + 1
+    for st in tree.body:
+        if isinstance(st, ast.Assign) and len(st.targets) == 1 and isinstance(st.targets[0], ast.Name) and isinstance(st.value, (ast.Tuple, ast.List)) \
+                and 0 < len(st.value.elts) <= 8 and all(_static_elem(e) for e in st.value.elts) and stores.get(st.targets[0].id) == 1 and st.targets[0].id not in known:
+            nm = st.targets[0].id
+            mutated = any(isinstance(x, ast.Attribute) and isinstance(x.value, ast.Name) and x.value.id == nm and x.attr in ("append", "extend", "insert", "pop", "remove", "clear", "sort", "reverse")
+                          for x in ast.walk(tree)) or any(isinstance(x, ast.Subscript) and isinstance(x.ctx, (ast.Store, ast.Del)) and isinstance(x.value, ast.Name) and x.value.id == nm for x in ast.walk(tree))
+            if not mutated:
+                tables[nm] = st.value
+
+    def unroll(body):
+        out = []
+        for i, st in enumerate(body):
+            for fld in ("body", "orelse", "finalbody"):
+                b = getattr(st, fld, None)
+                if isinstance(b, list) and b and isinstance(b[0], ast.stmt):
+                    setattr(st, fld, unroll(b))
+            if isinstance(st, ast.Try):
+                for h in st.handlers:
+                    h.body = unroll(h.body)
+            if isinstance(st, ast.For) and not st.orelse:
+                it = st.iter
+                elts = None
+                if isinstance(it, ast.Name) and it.id in tables:
+                    elts = tables[it.id].elts
+                tg = st.target
+                tnames = [tg.id] if isinstance(tg, ast.Name) else ([e.id for e in tg.elts] if isinstance(tg, ast.Tuple) and all(isinstance(e, ast.Name) for e in tg.elts) else None)
+                inner = [x for b_ in st.body for x in ast.walk(b_)]
+                if elts is not None and tnames is not None and not any(isinstance(x, (ast.Break, ast.Continue, ast.FunctionDef, ast.Lambda, ast.ClassDef)) for x in inner) \
+                        and not any(isinstance(x, ast.Name) and isinstance(x.ctx, (ast.Store, ast.Del)) and x.id in tnames for x in inner) \
+                        and not any(isinstance(x, ast.Name) and x.id in tnames for r_ in body[i + 1:] for x in ast.walk(r_)) \
+                        and (len(tnames) == 1 or all(isinstance(e, (ast.Tuple, ast.List)) and len(e.elts) == len(tnames) for e in elts)):
+                    for e in elts:
+                        vals = [e] if len(tnames) == 1 else list(e.elts)
+                        m = dict(zip(tnames, vals))
+
+                        class S(ast.NodeTransformer):
+                            def visit_Name(self, n: ast.Name):
+                                if n.id in m and isinstance(n.ctx, ast.Load):
+                                    return ast.copy_location(copy.deepcopy(m[n.id]), n)
+                                return n
+                        out.extend(S().visit(copy.deepcopy(b_)) for b_ in st.body)
+                    continue
+            out.append(st)
+        return out
+
+    for fn in ast.walk(tree):
+        if isinstance(fn, (ast.FunctionDef, ast.AsyncFunctionDef)):
+            fn.body = unroll(fn.body)
+
+
+_ANY_COUNTER = [0]
+
+
+def _any_all_to_loops(tree: ast.Module) -> None:
+    """C16: `if any(c(x) for x in IT): <leaves>`  ->  `for x in IT: if c(x): <leaves>` and `if not all(c(x) for x in IT): <leaves>` -> `for x in IT:
+    if not c(x): <leaves>` (one generator, no `if` clause needed but allowed; the statement has no else; <leaves> ends in raise / return).  Same
+    elements tested in the same order, stopping at the first hit; the loop variable gets a fresh name so that nothing outside is shadowed."""
+    import copy
+
+    def conv(body, in_loop):
+        out = []
+        for st in body:
+            for fld in ("body", "orelse", "finalbody"):
+                b = getattr(st, fld, None)
+                if isinstance(b, list) and b and isinstance(b[0], ast.stmt):
+                    setattr(st, fld, conv(b, in_loop))
+            if isinstance(st, ast.Try):
+                for h in st.handlers:
+                    h.body = conv(h.body, in_loop)
+            if isinstance(st, ast.If) and not st.orelse and _leaves(st.body, False):
+                t = st.test
+                neg = False
+                if isinstance(t, ast.UnaryOp) and isinstance(t.op, ast.Not):
+                    t, neg = t.operand, True
+                if isinstance(t, ast.Call) and isinstance(t.func, ast.Name) and t.func.id in ("any", "all") and len(t.args) == 1 and not t.keywords \
+                        and isinstance(t.args[0], (ast.GeneratorExp, ast.ListComp)) and len(t.args[0].generators) == 1 and not t.args[0].generators[0].is_async \
+                        and ((t.func.id == "any") != neg):
+                    g = t.args[0].generators[0]
+                    if isinstance(g.target, ast.Name):
+                        _ANY_COUNTER[0] += 1
+                        fresh = f"{g.target.id}__g{_ANY_COUNTER[0]}"
+                        old = g.target.id
+
+                        class Rn(ast.NodeTransformer):
+                            def visit_Name(self, n: ast.Name):
+                                if n.id == old:
+                                    return ast.copy_location(ast.Name(id=fresh, ctx=n.ctx), n)
+                                return n
+                        cond = Rn().visit(copy.deepcopy(t.args[0].elt))
+                        if t.func.id == "all":
+                            cond = ast.copy_location(ast.UnaryOp(op=ast.Not(), operand=cond), cond)
+                        for c_ in g.ifs:
+                            cond = ast.copy_location(ast.BoolOp(op=ast.And(), values=[Rn().visit(copy.deepcopy(c_)), cond]), cond)
+                        inner = ast.copy_location(ast.If(test=cond, body=st.body, orelse=[]), st)
+                        loop = ast.copy_location(ast.For(target=ast.copy_location(ast.Name(id=fresh, ctx=ast.Store()), g.target), iter=g.iter, body=[inner], orelse=[], lineno=st.lineno), st)
+                        out.append(loop)
+                        continue
+            out.append(st)
+        return out
+
+    for fn in ast.walk(tree):
+        if isinstance(fn, (ast.FunctionDef, ast.AsyncFunctionDef)):
+            fn.body = conv(fn.body, False)
+
+
+def canonicalise(tree: ast.Module, module: str = "") -> ast.Module:
+    if os.environ.get("JV_CANON_C16", "0") == "1":  # off: the reference tree itself uses `all(...)` tests that rules address (is_list_str); the any / all idiom is handled in the rules
+        _any_all_to_loops(tree)
+    if os.environ.get("JV_CANON_C15", "1") == "1":
+        # only tables the rule catalogue does not know (module-level names that are not in the reference list): a loop the reference tree already has stays
+        from .renames import reference
+        known = {q.split(":", 1)[1] for q in reference()[1] if q.startswith(module + ":")}
+        _unroll_table_loops(tree, known)
     if os.environ.get("JV_CANON_C14", "1") == "1":
         tree = _DropAnn().visit(tree)
     if os.environ.get("JV_CANON_C11", "1") == "1":
